@@ -59,6 +59,14 @@ def body(ctx, conv, shape, bounds, layout, nan_cells=None, mesh_opts=None, mode=
     temp, u, v = sym('t', 10.0), sym('u', 100.0), sym('v', 200.0)
     data = {'temp': (tuple(ddims), temp), 'u': (tuple(ddims), u), 'v': (tuple(ddims), v),
             'deep': (('k',) + tuple(ddims), numpy.zeros((2,) + dshape))}
+    # a variable on another grid of the same dataset (more elements than there are faces)
+    other_grid = None
+    if conv == 'shoc_standard':
+        other_grid = ('j_node', 'i_node'), (gshape[0] + 1, gshape[1] + 1)
+    elif conv == 'ugrid':
+        other_grid = ('nnode',), (len(pipeline.builders.MESHES[shape][0]),)
+    if other_grid is not None:
+        data['elsewhere'] = (other_grid[0], numpy.arange(int(numpy.prod(other_grid[1])), dtype=float).reshape(other_grid[1]))
     P = pipeline.build(ctx, conv, shape, bounds=bounds, nan_cells=nan_cells, data=data, mesh_opts=mesh_opts)
     cv, ds = P.convention, P.ds
     polygons = cv.polygons
@@ -125,6 +133,15 @@ def body(ctx, conv, shape, bounds, layout, nan_cells=None, mesh_opts=None, mode=
             ctx.check(False, 'a variable with leftover dimensions is refused with ValueError')
         except ValueError:
             ctx.check(True, 'a variable with leftover dimensions is refused with ValueError')
+        if other_grid is not None:
+            # its values belong to nodes, not to cells: painting them on the cell polygons would pair values with the
+            # wrong places, so anything but a refusal is wrong (which exception is raised is not prescribed)
+            try:
+                cv.make_poly_collection('elsewhere')
+                refused = False
+            except Exception:
+                refused = True
+            ctx.check(refused, 'a variable that is not defined on the cells is refused instead of being painted on them')
     elif mode == 'quiver':
         if P.centre is None and ctx.symbolic:
             ctx.check(True, 'face centres from centroids are checked in replay only')
